@@ -33,8 +33,14 @@ $(BUILD)/asan/%.o: sim/%.cpp Makefile
 	@mkdir -p $(dir $@)
 	$(CXX) $(ASAN_FLAGS) $(EXTRA) -c $< -o $@
 
+# self-test binary: the same objects linked against the REAL libgomp instead of gompsim (tools/selftest_abi.sh)
+REAL_OBJ = $(filter-out $(BUILD)/plain/gompsim.o,$(PLAIN_OBJ))
+realgomp: $(BUILD)/tbfsim_realgomp
+$(BUILD)/tbfsim_realgomp: $(REAL_OBJ)
+	$(CXX) -fopenmp -o $@ $^ -lfftw3 -lfftw3f -lpthread
+
 clean:
 	rm -rf $(BUILD)
 
 -include $(PLAIN_OBJ:.o=.d) $(ASAN_OBJ:.o=.d)
-.PHONY: all plain asan clean
+.PHONY: all plain asan realgomp clean
